@@ -88,6 +88,7 @@ type Conn struct {
 	QuietReads        bool // do not log individual read events
 	MaxReadChunk      int  // if >0, deliver at most this many bytes per Read (segmentation inside a segment)
 	blockWritesOnGate chan struct{}
+	failed            bool
 	clientWriting     bool // the client is delivering one logical write in several segments (TLS records)
 	idleHeld          bool
 }
@@ -106,7 +107,8 @@ func (c *Conn) Read(p []byte) (int, error) {
 		if c.serverClosed {
 			return 0, net.ErrClosed
 		}
-		if (c.failReadsAfter >= 0 && c.reads >= c.failReadsAfter) || (c.failAfterBytes >= 0 && c.delivered >= c.failAfterBytes) {
+		if c.failed || (c.failReadsAfter >= 0 && c.reads >= c.failReadsAfter) || (c.failAfterBytes >= 0 && c.delivered >= c.failAfterBytes) {
+			c.failed = true // once the transport has failed it fails in both directions
 			c.reads++
 			if !c.faultLogged {
 				c.faultLogged = true
@@ -163,7 +165,8 @@ func (c *Conn) Write(p []byte) (int, error) {
 	if c.serverClosed {
 		return 0, net.ErrClosed
 	}
-	if c.failWritesAfter >= 0 && c.writes >= c.failWritesAfter {
+	if c.failed || (c.failWritesAfter >= 0 && c.writes >= c.failWritesAfter) {
+		c.failed = true
 		c.writes++
 		if !c.faultLogged {
 			c.faultLogged = true
